@@ -842,7 +842,11 @@ class FunctionDefinition:
 
     @property
     def has_self(self) -> bool:
-        return self.kind in self._KIND_WITH_SELF
+        # __new__ is kept as a static method, but it is handed the class first
+        return self.kind in self._KIND_WITH_SELF or (
+            self.kind == FunctionKind.STATIC
+            and self.qualname.rpartition(".")[2] == "__new__"
+        )
 
     def __eq__(self, other: Any) -> bool:
         if isinstance(other, self.__class__):
